@@ -239,7 +239,7 @@ fn present(spec: &Spec, site: usize, i: usize) -> bool {
     !stag || (i + site) % 2 == 0
 }
 
-fn make_chunk(spec: &Spec, i: usize, n: usize, ntex: usize) -> McnkChunk {
+pub fn make_chunk(spec: &Spec, i: usize, n: usize, ntex: usize) -> McnkChunk {
     let (ix, iy) = if n == 2 && i == 1 { (15, 15) } else { ((i % 16) as u32, (i / 16) as u32) };
     let on = |site: usize| -> &'static str {
         if present(spec, site, i) {
@@ -743,6 +743,75 @@ pub fn make_input(spec: &Spec) -> Input {
     Input { version: VERSIONS[spec.version].1, textures, models, wmos, doodads, wmo_placements, mcnk, flight_bounds, water, mtxf, mamp, mtxp, blend }
 }
 
+// ------------------------------------------------------------------ product alphabets (thorough-only spaces)
+
+pub fn vidx(site: usize, name: &str) -> u8 {
+    SITES[site].vals.iter().position(|v| *v == name).unwrap_or_else(|| panic!("site {} has no value {name}", SITES[site].name)) as u8
+}
+
+/// Per-chunk product of the `chunks` space: every combination of these values occurs on one terrain
+/// chunk (256 consecutive combinations share a tile).  First site varies fastest.
+pub const CHUNK_PRODUCT: [(usize, &[&str]); 13] = [
+    (S_HEIGHTS, &["off", "on"]),
+    (S_NORMALS, &["off", "on"]),
+    (S_SHADOW, &["off", "on"]),
+    (S_VCOLORS, &["off", "on"]),
+    (S_VLIGHT, &["off", "on"]),
+    (S_LAYERS, &["none", "one", "four", "empty"]),
+    (S_ALPHA, &["none", "u2048", "mixed", "odd3"]),
+    (S_SOUND, &["none", "three", "empty"]),
+    (S_LIQUID, &["none", "water", "slime"]),
+    (S_REFS, &["none", "doodad_only", "doodad_and_wmo", "wmo_only"]),
+    (S_SPLITREFS, &["none", "mcrd", "mcrw", "both"]),
+    (S_EXTRAS, &["none", "mcmt", "mcdd", "mcbb", "mcmt_mcdd", "mcmt_mcbb", "mcdd_mcbb", "all_three"]),
+    (S_CFLAGS, &["none", "impassable_nofix", "high_res_holes"]),
+];
+
+pub fn chunk_product_len() -> u64 {
+    CHUNK_PRODUCT.iter().map(|(_, v)| v.len() as u64).product()
+}
+
+/// Terrain chunks of tile `block` of the `chunks` space: combination `block*256 + i` on chunk `i`.
+pub fn product_chunks(tile: &Spec, block: u64, ntex: usize) -> Vec<McnkChunk> {
+    let total = chunk_product_len();
+    let first = block * 256;
+    let n = (total - first).min(256) as usize;
+    let radices: Vec<u64> = CHUNK_PRODUCT.iter().map(|(_, v)| v.len() as u64).collect();
+    (0..n)
+        .map(|i| {
+            let mut s = tile.clone();
+            s.v[S_STAGGER] = 0;
+            let mut c = first + i as u64;
+            for ((site, vals), r) in CHUNK_PRODUCT.iter().zip(radices.iter()) {
+                s.v[*site] = vidx(*site, vals[(c % r) as usize]);
+                c /= r;
+            }
+            make_chunk(&s, i, n.max(3), ntex)
+        })
+        .collect()
+}
+
+/// Data bytes per MCNK sub-chunk kind that the documented record sizes imply for these chunks
+/// (kinds with a fixed, documented record size only).
+pub fn expected_sub_data(chunks: &[McnkChunk]) -> BTreeMap<&'static str, usize> {
+    let mut m: BTreeMap<&'static str, usize> = BTreeMap::new();
+    let mut add = |k: &'static str, n: usize| *m.entry(k).or_insert(0) += n;
+    for c in chunks {
+        add("MCVT", c.heights.as_ref().map(|x| 4 * x.heights.len()).unwrap_or(0));
+        add("MCNR", c.normals.as_ref().map(|x| 3 * x.normals.len() + 13).unwrap_or(0));
+        add("MCLY", c.layers.as_ref().map(|x| 16 * x.layers.len()).unwrap_or(0));
+        add("MCRF", c.refs.as_ref().map(|x| 4 * x.references.len()).unwrap_or(0));
+        add("MCRD", c.doodad_refs.as_ref().map(|x| 4 * x.doodad_refs.len()).unwrap_or(0));
+        add("MCRW", c.wmo_refs.as_ref().map(|x| 4 * x.wmo_refs.len()).unwrap_or(0));
+        add("MCAL", c.alpha.as_ref().map(|x| x.data.len()).unwrap_or(0));
+        add("MCSH", c.shadow.as_ref().map(|x| x.shadow_map.len()).unwrap_or(0));
+        add("MCCV", c.vertex_colors.as_ref().map(|x| 4 * x.colors.len()).unwrap_or(0));
+        add("MCLV", c.vertex_lighting.as_ref().map(|x| 4 * x.colors.len()).unwrap_or(0));
+        add("MCSE", c.sound_emitters.as_ref().map(|x| 28 * x.emitters.len()).unwrap_or(0));
+    }
+    m
+}
+
 // ------------------------------------------------------------------ normalised content
 
 /// section key -> canonical bytes.  Absent and empty sections are both "not in the map".
@@ -805,6 +874,10 @@ pub fn mcnk_content(c: &mut Content, i: usize, m: &McnkChunk) {
     e.f3(&h.position);
     e.u32(h.unused);
     put(c, k("header"), e);
+    if h.flags.high_res_holes() {
+        // with this flag the 8 bytes that otherwise hold the MCVT/MCNR offsets are content (hole bitmap)
+        put(c, k("high_res_holes"), Enc(h.multipurpose_field.to_vec()));
+    }
     if let Some(x) = &m.heights {
         let mut e = Enc(vec![]);
         for v in &x.heights {
@@ -913,8 +986,7 @@ pub fn mcnk_content(c: &mut Content, i: usize, m: &McnkChunk) {
 
 fn water_content(c: &mut Content, w: &Mh2oChunk) {
     for (i, en) in w.entries.iter().enumerate() {
-        if en.instances.is_empty() {
-            // attributes without any liquid layer are not generated by this check
+        if en.instances.is_empty() && en.attributes.is_none() {
             continue;
         }
         let mut e = Enc(vec![]);
